@@ -12,11 +12,13 @@ RULE = ("configurations = subsets of (kind, name) descriptor registrations over 
         "vs REFERENCE), random subsets; in each, a battery of parsed ASTs containing every kind and registered/unregistered names is described "
         "before any registration, after each batch, and after re-registration with new ids. distinct class = (descriptor key, registered | default)")
 KINDS = ["UNARY", "BINARY", "POSTFIX", "TERNARY", "FUNCTION", "REFERENCE", "LIST", "MAP", "CHAIN"]
-NAMES = {"UNARY": ["-", "!", "not", "AND", "++"], "BINARY": ["+", "-", "*", "==", "in", "=", "&&"], "POSTFIX": ["++", "--", "!"], "FUNCTION": ["f", "g", "x", "min"], "REFERENCE": ["x", "y", "f", "min"]}
+NAMES = {"UNARY": ["-", "!", "not", "AND", "++"], "BINARY": ["+", "-", "*", "==", "in", "=", "&&"], "POSTFIX": ["++", "--", "!"], "FUNCTION": ["f", "g", "x", "min", "rateBB"], "REFERENCE": ["x", "y", "f", "min", "tierBB"]}
 BATTERY = [
     "- x + y * 2", "! a && not b", "x ++ - y --", "c ? x : y", "f(x, 1) + g() + min(2, 3)", "[x, y, [1]]", "{x: 1, 2: y}", "x = 1; y = x + 1; f(y)", "AND [a, b] || x in [1, 2]",
     "- (x - y) - - z", "x == y ? f(x) : [g(x)]", "x", "f()", "[]", "{}", "1 + 2", "true", "x not in y", "(c ? 1 : 2) ? x : - y", "f(g(x), {1: [y]})", "a; b", "x = y = 3",
     "! x !", "++ x ++", "x ! + ! y", "not ++ x",
+    # names that collide under common string hashes must still get their own descriptors
+    "tierAa + tierBB * rateAa(1) - rateBB(2)", "x; hidden; y", "f(); g(x); 3", "a; b; c; d",
     # deep trees: descriptors apply at every depth
     "x" + " + 1" * 140, "[" * 130 + "x" + "]" * 130, "- " * 135 + "x", "f(" * 132 + "x" + ")" * 132, "x" + " ++" * 1 + " + y" * 129,
 ]
@@ -55,6 +57,12 @@ def config_steps(rnd, spec):
     for batch in spec:
         for kind, name in batch:
             nid += 1
+            if kind in ("REFERENCE", "FUNCTION") and rnd.random() < 0.08:
+                # a descriptor that hides its node (renders as the empty string)
+                steps.append({"op": "desc", "kind": kind, "name": name or "", "id": 0})
+                plan.append(None)
+                reg[(kind, name)] = 0
+                continue
             steps.append({"op": "desc", "kind": kind, "name": name or "", "id": nid})
             plan.append(None)
             reg[(kind, name) if name is not None else (kind,)] = nid
@@ -77,6 +85,7 @@ def spec_for(rnd, how, arg):
             [[("POSTFIX", "++")], [("UNARY", "++")]], [[("UNARY", "++")], [("POSTFIX", "++")]], [[("FUNCTION", "x")], [("REFERENCE", "x")]], [[("REFERENCE", "f")], [("FUNCTION", "f")]],
             [[("REFERENCE", "x")], [("REFERENCE", "x")]], [[("BINARY", "+")], [("BINARY", "+")], [("BINARY", "+")]], [[("FUNCTION", "min")], [("REFERENCE", "min")], [("UNARY", "not"), ("BINARY", "in")]],
         ]
+        combos += [[[("REFERENCE", "tierBB"), ("FUNCTION", "rateBB")]], [[("REFERENCE", "hidden")], [("CHAIN", None)]]]
         return combos[arg % len(combos)]
     # random subsets in 1-3 batches
     keys = [(k, n) for k in KINDS for n in names(k)]
@@ -184,7 +193,7 @@ def run(rep, tier):
     rep.assumptions = ["marker descriptors are pure functions of their arguments; literals render as in expr() (strings are kept out of the battery)", "registration is process-global, so every configuration runs in its own process"]
     common.build("verifdbg")
     common.build("release")
-    items = [("single", i) for i in range(9)] + [("pair", p) for p in itertools.combinations(KINDS, 2)] + [("samesym", i) for i in range(11)]
+    items = [("single", i) for i in range(9)] + [("pair", p) for p in itertools.combinations(KINDS, 2)] + [("samesym", i) for i in range(13)]
     items += [("random", i) for i in range(300 if tier == "quick" else 10000)]
     items += [("concurrent", i) for i in range(64 if tier == "quick" else 1500)]
     nsh = 32 if tier == "quick" else 64
